@@ -361,7 +361,7 @@ theorem totInv_g (env : Env) (ho : OracleOrdinary env) (f : Nat) (ih : TotInv en
         generalize readN (env.padTarget - ((r.length - r2.length : Nat) : Int)) r2 = p
         obtain ⟨pad, r3⟩ := p
         intro h
-        simp only [R.res_bind, R.res_tick, ok_bind] at h
+        simp only at h
         split at h
         · simp at h; subst h; rfl
         · simp at h
